@@ -1135,11 +1135,17 @@ func (g *FunctionGenerator[V]) GenerateFunc(ast parser2.AST, gc GeneratorContext
 					return nil, false, err
 				}
 				return func(st Stack[V], cs []V) (V, error) {
-					for _, argFunc := range argsFuncList {
+					// All arguments are evaluated before the first one is pushed: a let
+					// inside an argument needs the stack size known at compile time.
+					args := make([]V, len(argsFuncList))
+					for i, argFunc := range argsFuncList {
 						v, err := argFunc(st, cs)
 						if err != nil {
 							return zero, a.EnhanceErrorf(err, "error in function call to %s", id.Name)
 						}
+						args[i] = v
+					}
+					for _, v := range args {
 						st.Push(v)
 					}
 					return fun.Func(st.CreateFrame(len(argsFuncList)), nil)
@@ -1166,11 +1172,15 @@ func (g *FunctionGenerator[V]) GenerateFunc(ast parser2.AST, gc GeneratorContext
 			if theFunc.argsNumberNotMatching(len(argsFuncList)) {
 				return zero, fmt.Errorf("wrong number of arguments at call of function, required %d, found %d in line %d", theFunc.Args, len(argsFuncList), a.Line)
 			}
-			for _, argFunc := range argsFuncList {
+			args := make([]V, len(argsFuncList))
+			for i, argFunc := range argsFuncList {
 				v, err := argFunc(st, cs)
 				if err != nil {
 					return zero, a.EnhanceErrorf(err, "error in arguments in function call to %v", a.Func)
 				}
+				args[i] = v
+			}
+			for _, v := range args {
 				st.Push(v)
 			}
 			return theFunc.Func(st.CreateFrame(len(argsFuncList)), cs)
@@ -1198,11 +1208,15 @@ func (g *FunctionGenerator[V]) GenerateFunc(ast parser2.AST, gc GeneratorContext
 						if theFunc.argsNumberNotMatching(len(argsFuncList)) {
 							return zero, a.Error(theFunc.argsNumberNotMatchingError(name, len(argsFuncList)))
 						}
-						for _, argFunc := range argsFuncList {
+						args := make([]V, len(argsFuncList))
+						for i, argFunc := range argsFuncList {
 							v, err := argFunc(st, cs)
 							if err != nil {
 								return zero, a.EnhanceErrorf(err, "error in arguments in method call to %s", name)
 							}
+							args[i] = v
+						}
+						for _, v := range args {
 							st.Push(v)
 						}
 						v, err := theFunc.Func(st.CreateFrame(len(argsFuncList)), cs)
@@ -1221,12 +1235,16 @@ func (g *FunctionGenerator[V]) GenerateFunc(ast parser2.AST, gc GeneratorContext
 				if me.Args > 0 && me.Args != len(argsFuncList)+1 {
 					return zero, a.Errorf("wrong number of arguments at call of \"%s\", required %d, found %d", me.Description.String(name), me.Args-1, len(argsFuncList))
 				}
-				st.Push(value)
-				for _, arg := range argsFuncList {
+				args := make([]V, len(argsFuncList))
+				for i, arg := range argsFuncList {
 					v, err := arg(st, cs)
 					if err != nil {
 						return zero, a.EnhanceErrorf(err, "error in arguments in method call to %s", name)
 					}
+					args[i] = v
+				}
+				st.Push(value)
+				for _, v := range args {
 					st.Push(v)
 				}
 				v, err := me.Func(st.CreateFrame(len(argsFuncList)+1), nil)
